@@ -71,10 +71,31 @@ def gen_specs(run):
         stuck["rng"] = {"kind": "const", "byte": 0x5a}
         specs.append({"id": f"c13-{sid}", "group": "fm", "members": [base, other, again, stuck], "verifies": [{"mode": "VerifyOnly", "vmembers": [gen.vmember(base, 0)], "log": False}],
                       "_conf": [b, m, T, seeded], "with_gens": True})
+    # the crate's own entry point `prove` (it hands the operating system's generator to prove_with_rng): identical calls in one process
+    for oi, (b, m, T, seeded) in enumerate([(2, 1, 1, False), (4, 1, 2, True), (2, 2, 1, False), (8, 1, 3, True)]):
+        base = gen.mk_member(rng, b, m, cap=m, T=T, seed=seeded)
+        base["use_os_rng"] = True
+        specs.append({"id": f"c13-os-{oi}", "group": "fm", "members": [base, copy.deepcopy(base), copy.deepcopy(base)],
+                      "verifies": [{"mode": "VerifyOnly", "vmembers": [gen.vmember(base, q)], "log": False} for q in range(3)],
+                      "_conf": [b, m, T, seeded], "_os": True, "with_gens": True, "_no_embed": True, "_no_modes": True})
     return specs
 
 
 def oracle(run, s, o):
+    if s.get("_os"):
+        b, m, T, seeded = s["_conf"]
+        rp = {"kind": "session", "spec": sessions.strip(s)}
+        run.count(["os-rng", b, m, T, seeded], {"check": "RangeProof::prove called three times with identical inputs in one process", "bits": b, "m": m, "T": T, "seeded": seeded})
+        run.bump("OS-RNG proving calls", 3)
+        if any(mo.get("prove") != "ok" for mo in o["members"]) or any(v["result"] != "ok" for v in o["verifies"]):
+            run.violation(f"prove() with the operating system's generator failed or its proof does not verify: {[mo.get('prove') for mo in o['members']]}", rp)
+            return
+        A, B, C = (slots_of(ms, mo) for ms, mo in zip(s["members"], o["members"]))
+        rng_slots = [k_ for k_ in A if not seeded or k_[0] in ("r", "s")]
+        same = [k_ for k_ in rng_slots if A[k_] == B[k_] or A[k_] == C[k_] or B[k_] == C[k_]]
+        if same or len({mo["proof"]["bytes"] for mo in o["members"]}) != 3:
+            run.violation(f"identical prove() calls in one process reuse RNG-sourced nonces (bits={b}, m={m}, T={T}, seeded={seeded}): {same[:4]} — the external randomness is not fresh per call", rp)
+        return
     b, m, T, seeded = s["_conf"]
     rp = {"kind": "session", "spec": sessions.strip(s)}
     for mo in o["members"]:
